@@ -147,6 +147,14 @@ def _begin_run(sc, env, budget):
         # perturb the heap layout so address-based hashes differ between executions
         _GARBAGE.extend(bytearray((i * 37) % 211 + 1) for i in range(n))
         del _GARBAGE[::2]
+    k = int(sc.get("fn_garbage") or 0)
+    if k:
+        # the same for function objects (listeners, subscribers and callbacks are hashed by address when put in a set):
+        # allocate a batch, free an irregular subset so that the allocator's free list hands out addresses in another order
+        fns = [(lambda ev, j=j, r=rec_cell: (j, r)) for rec_cell in (object(),) for j in range(k * 8)]
+        keep = [f for i, f in enumerate(fns) if (i * (k + 2)) % 5 >= 2]
+        del fns
+        _GARBAGE.append(keep)
     seams.set_hash_mode(sc.get("hash_mode", "salted"))
     seams.set_salt(sc.get("salt", 0))
     seams.UUID.reset(sc.get("uuid_mode"), sc.get("salt", 0))
@@ -164,6 +172,7 @@ def _begin_run(sc, env, budget):
     seams.LOGCAP.sink = log_sink
     hostile = sc.get("hostile_plugin")
     plugin = RecPlugin(rec, hostile=set(hostile) if hostile else None)
+    plugin.start_sends = sc.get("start_hook_sends")
     _ACTIVE["rec"] = rec
     # "no_plugin": the interpreters run without any plugin (observers must not be needed for correct behaviour);
     # "second_plugin": a well-behaved plugin is registered after the recording one
@@ -218,6 +227,15 @@ def _attach_listeners(rec, sc):
         def lis2(ev):
             rec.rec("emit2", interp.id, getattr(ev, "type", None))
         interp.on("*", lis2)
+
+        def lis3(ev):
+            # a type-specific listener: listeners run in registration order, the specific ones before the wildcard ones
+            rec.rec("emit3", interp.id, getattr(ev, "type", None))
+        interp.on("NOTE", lis3)
+        for j in range(int(sc.get("extra_listeners") or 0)):
+            def lisx(ev, j=j):
+                rec.rec("emitx", interp.id, j)
+            interp.on("*" if j % 2 else "NOTE", lisx)
     _ACTIVE["subs"] = attach
 
 
